@@ -6,8 +6,9 @@ import ast
 
 from ..astutil import call_name, calls_in, dotted, returns_of, unparse, walk_local, walk_stmts
 from ..index import ClassInfo, FuncInfo
-from ..report import Registry, sub
+from ..report import Registry, chain, sub
 from ._helpers_rules_a import Mini, Unsupported, str_constants, strings_over
+from ._helpers_rob_d1 import Mini2, ModelObj, ModelSelf, model_callable
 
 R = Registry(
     "C08",
@@ -65,42 +66,43 @@ def r1(ctx):
     f = ctx.func(f"{OPS}::_escaped_like_impl")
     ctx.require(len(f.params) >= 4, "_escaped_like_impl no longer has (fn, other, escape, autoescape)")
     p_fn, p_other, p_escape, p_auto = f.params[:4]
+    FN = ModelObj("fn")
 
     def hook(call, env, mini):
-        if isinstance(call.func, ast.Name) and call.func.id == p_fn:
-            args = [mini.ev(a, env) for a in call.args]
-            kws = {}
-            for k in call.keywords:
-                if k.arg is None:
-                    raise Unsupported(f"**kwargs in `{unparse(call)}`")
-                kws[k.arg] = mini.ev(k.value, env)
+        # a call of the `fn` parameter (or of a local alias of it), in the function or in a followed helper
+        if isinstance(call.func, ast.Name) and env.get(call.func.id) is FN:
+            args, kws = mini._args(call, env)
             return ("fn", tuple(args), kws)
         return NotImplemented
 
+    def resolver(name):
+        # module level helpers of operators.py are followed (extracted replace chain)
+        t = ctx.index.resolve(f.module, name)
+        return t if isinstance(t, FuncInfo) and t.cls is None and t.key != f.key else None
+
     def run(s, e, auto):
-        mini = Mini(call_hook=hook, what="_escaped_like_impl")
-        env = {p_fn: "<fn>", p_other: s, p_escape: e, p_auto: auto}
+        mini = Mini2(call_hook=hook, func_resolver=resolver, what="_escaped_like_impl")
+        env = {p_fn: FN, p_other: s, p_escape: e, p_auto: auto}
         kind, val, node = mini.run(f.node.body, env)
+        for h in mini.followed:
+            ctx.functions_analysed.add(h.key)
         ctx.require(kind == "return" and isinstance(val, tuple) and val and val[0] == "fn",
                     f"_escaped_like_impl({s!r}, escape={e!r}, autoescape={auto}) does not end in a call of "
                     f"its `{p_fn}` parameter (got {kind})")
         _, args, kws = val
         return args, kws
 
-    # structural: every return forwards the escape variable
-    rets = returns_of(f.node)
-    ctx.require(rets, "no return in _escaped_like_impl")
-    good = True
-    for r in rets:
-        v = r.value
-        ok = (isinstance(v, ast.Call) and isinstance(v.func, ast.Name) and v.func.id == p_fn
-              and any(k.arg == "escape" and isinstance(k.value, ast.Name) and k.value.id == p_escape
-                      for k in v.keywords)
-              and v.args and isinstance(v.args[0], ast.Name) and v.args[0].id == p_other)
-        good = good and ok
-    ctx.check(good, f.key + ":forward",
-              f"a return does not call {p_fn}({p_other}, escape={p_escape})",
-              f"every return is {p_fn}({p_other}, escape={p_escape})", f.loc)
+    # every way out forwards one operand and the escape: judged on the model runs (all four escape classes,
+    # autoescape on and off), not on the shape of the return statements
+    bad = None
+    for e in (None, "^", "%", "_"):
+        for auto in (False, True):
+            args, kws = run("a", e, auto)
+            if len(args) != 1 or "escape" not in kws or set(kws) - {"escape"}:
+                bad = f"escape={e!r}, autoescape={auto}: {p_fn}{args}, {kws}"
+    ctx.check(bad is None, f.key + ":forward",
+              f"a return does not call {p_fn}(<operand>, escape=<escape>): {bad}",
+              f"every way out is {p_fn}(<operand>, escape=<escape>)", f.loc)
 
     # autoescape off: identity
     bad = None
@@ -166,6 +168,87 @@ def _op_names():
                 yield neg, ci, stem, f"{neg}{ci}{stem}_op"
 
 
+class _ImplCall:
+    """model value of `_escaped_like_impl(...)`: arguments bound to the implementation's parameters."""
+
+    def __init__(self, bound, inverted=False):
+        self.bound, self.inverted = bound, inverted
+
+    def m_invert(self):
+        return _ImplCall(self.bound, not self.inverted)
+
+
+def _model_op(ctx, m, impl, f: FuncInfo, neg, ci, stem):
+    """Run `<neg><ci><stem>_op(a, b, escape, autoescape)` in the model; problems (list) or Unsupported."""
+    a_name, b_name = f.params[0], f.params[1]
+    A = ModelObj(a_name, attr_default=lambda attr: ("bound-method", attr))
+    B, ESC, AUTO = ModelObj("b"), ModelObj("escape"), ModelObj("autoescape")
+
+    def hook(call, env, mini):
+        if isinstance(call.func, (ast.Name, ast.Attribute)) and not (
+                isinstance(call.func, ast.Name) and call.func.id in env):
+            d = dotted(call.func)
+            if d and ctx.index.resolve(m, d) is impl:
+                args, kws = mini._args(call, env)
+                bound = dict(zip(impl.params, args))
+                bound.update(kws)
+                return _ImplCall(bound)
+        return NotImplemented
+
+    mini = Mini2(call_hook=hook, what=f.name)
+    kwargs = {}
+    problems = []
+    for pname, val in (("escape", ESC), ("autoescape", AUTO)):
+        if pname in f.params:
+            kwargs[pname] = val
+        else:
+            problems.append(f"`{pname}` is not forwarded")
+    val = mini.run_function(f, [A, B], kwargs)
+    if not isinstance(val, _ImplCall):
+        return [f"{f.name} does not return a call of _escaped_like_impl"]
+    fnarg = val.bound.get(impl.params[0])
+    if not (isinstance(fnarg, tuple) and fnarg and fnarg[0] == "bound-method"):
+        problems.append(f"first argument is not a bound method of `{a_name}`")
+    elif fnarg[1] != ci + stem:
+        problems.append(f"uses {a_name}.{fnarg[1]} instead of {a_name}.{ci}{stem}")
+    if val.bound.get(impl.params[1]) is not B:
+        problems.append(f"operand argument is not `{b_name}`")
+    for pname, want in (("escape", ESC), ("autoescape", AUTO)):
+        if pname in kwargs and val.bound.get(pname) is not want:
+            problems.append(f"`{pname}` is not forwarded")
+    if val.inverted != bool(neg):
+        problems.append("result is inverted" if val.inverted else "result is not inverted")
+    return problems
+
+
+def _model_method(ctx, m, meth: FuncInfo, ci, stem):
+    """Run ColumnOperators.<ci><stem>(other, escape=.., autoescape=..) in the model."""
+    O, ESC, AUTO = ModelObj("other"), ModelObj("escape"), ModelObj("autoescape")
+    SELF = ModelObj("self", methods={"operate": lambda op, *a, **kw: ("operate", op, a, kw)})
+
+    def name_hook(name, mini):
+        t = ctx.index.resolve(m, name)
+        return t if isinstance(t, FuncInfo) else NotImplemented
+
+    mini = Mini2(name_hook=name_hook, what=meth.qualname)
+    val = mini.run_function(meth, [SELF, O], {"escape": ESC, "autoescape": AUTO})
+    if not (isinstance(val, tuple) and val and val[0] == "operate"):
+        return ["does not return self.operate(...)"]
+    _, op, args, kws = val
+    problems = []
+    if not (isinstance(op, FuncInfo) and op.name == f"{ci}{stem}_op"):
+        problems.append(f"operates with `{getattr(op, 'name', op)}` instead of {ci}{stem}_op")
+    got = dict(kws)
+    if isinstance(op, FuncInfo):
+        got.update(dict(zip(op.params[1:], args)))
+        if not args or args[0] is not O:
+            problems.append("the operand is not passed to operate()")
+    for pname, want in (("escape", ESC), ("autoescape", AUTO)):
+        if got.get(pname) is not want:
+            problems.append(f"`{pname}` is not forwarded to operate()")
+    return problems
+
+
 @R.rule("C08-R2", floor=18, template="T-SIBLING",
         desc="each {not_}{i}{stem}_op calls _escaped_like_impl(a.<i><stem>, b, escape, autoescape), "
              "inverted exactly for not_; each ColumnOperators.<i><stem>() operates with <i><stem>_op and "
@@ -176,6 +259,13 @@ def r2(ctx):
     for neg, ci, stem, name in _op_names():
         f = ctx.func(f"{OPS}::{name}")
         key = f.key
+        try:
+            problems = _model_op(ctx, m, impl, f, neg, ci, stem)
+            ctx.check(not problems, key, f"{name}: " + "; ".join(problems),
+                      f"-> {'~' if neg else ''}_escaped_like_impl({f.params[0]}.{ci}{stem}, ...)", f.loc)
+            continue
+        except Unsupported as e:
+            ctx.note(f"{key}: model run not possible ({e}); structural matcher used")
         rets = returns_of(f.node)
         ctx.require(len(rets) == 1 and rets[0].value is not None, f"{name}: expected a single return")
         v = rets[0].value
@@ -218,6 +308,12 @@ def r2(ctx):
                 ctx.violation(key, "method not defined", co.loc)
                 continue
             ctx.functions_analysed.add(meth.key)
+            try:
+                problems = _model_method(ctx, m, meth, ci, stem)
+                ctx.check(not problems, key, "; ".join(problems), f"-> self.operate({ci}{stem}_op, ..)", meth.loc)
+                continue
+            except Unsupported as e:
+                ctx.note(f"{key}: model run not possible ({e}); structural matcher used")
             rets = returns_of(meth.node)
             ctx.require(len(rets) == 1, f"{key}: expected one return")
             v = rets[0].value
@@ -326,8 +422,217 @@ def _binary_names(fn: FuncInfo):
     return names
 
 
+# ---- model of the visitor family -------------------------------------------------------------------------
+class _Term:
+    """SQL expression in the model: atoms 'L' (binary.left), 'R' (binary.right), 'P' (the '%' literal);
+    ('cat', a, b) concatenation; ('lower', x) case-insensitive wrapper."""
+
+    def __init__(self, kind, *parts):
+        self.kind, self.parts = kind, parts
+
+    def __add__(self, other):
+        if isinstance(other, _Term):
+            return _Term("cat", self, other)
+        return NotImplemented
+
+    def m_method(self, attr, args, kwargs, mini, node):
+        if attr in ("concat", "_rconcat", "__add__", "__radd__") and len(args) == 1 and isinstance(args[0], _Term):
+            return _Term("cat", self, args[0]) if attr in ("concat", "__add__") else _Term("cat", args[0], self)
+        if attr == "_compiler_dispatch":
+            return self.render()
+        if attr == "self_group":
+            return self
+        raise Unsupported(f"{mini.what}: `.{attr}()` on a SQL operand has no model")
+
+    def flat(self, lowered=False):
+        if self.kind == "cat":
+            return self.parts[0].flat(lowered) + self.parts[1].flat(lowered)
+        if self.kind == "lower":
+            return self.parts[0].flat(True)  # lower(a || b) == lower(a) || lower(b); lower('%') == '%'
+        if self.kind == "P":
+            return ["P"]
+        return [self.kind.lower() if lowered else self.kind]
+
+    def render(self):
+        if self.kind == "cat":
+            return f"({self.parts[0].render()}||{self.parts[1].render()})"
+        if self.kind == "lower":
+            return f"lower({self.parts[0].render()})"
+        return f"<{self.kind}>"
+
+
+class _Binary(ModelObj):
+    def __init__(self, left, right, modifiers, origin=None):
+        super().__init__("binary", {"left": left, "right": right, "modifiers": modifiers})
+        self.origin = origin or self
+
+    def m_call(self, attr, args, kwargs, mini, node):
+        if attr == "_clone":
+            return _Binary(self.attrs["left"], self.attrs["right"], dict(self.attrs["modifiers"]), self.origin)
+        return super().m_call(attr, args, kwargs, mini, node)
+
+
+class _Delegated:
+    def __init__(self, name, args, kwargs):
+        self.name, self.args, self.kwargs = name, args, kwargs
+
+
+_FAMILY = [f"visit_{neg}{ci}{stem}_op_binary" for stem in STEMS + ("like",) for ci in ("", "i") for neg in ("", "not_")]
+
+
+def _render_operand(x, *a, **kw):
+    return x.render() if isinstance(x, _Term) else f"<?{x!r}>"
+
+
+def _run_visitor(ctx, cls: ClassInfo, fn: FuncInfo, escape, own_operator=True, selfobj=None, memo_seen=None):
+    """Run one visitor in the model.  Sibling visitors of the LIKE family are stubbed (the delegation is the
+    result), every other `self.<helper>()` / module helper is followed.  -> (result, binary passed in, selfobj)."""
+
+    @model_callable
+    def ci_wrap(x):
+        if not isinstance(x, _Term):
+            raise Unsupported("ilike_case_insensitive() of a non-operand")
+        return _Term("lower", x)
+
+    def mod_attr(attr):
+        if attr == "ilike_case_insensitive":
+            return ci_wrap
+        if attr.endswith("_op") or attr.isupper():
+            return ModelObj(attr)
+        return NotImplemented
+
+    modobj = ModelObj("module", attr_default=mod_attr)
+
+    def name_hook(name, mini):
+        imp = fn.module.imports.get(name)
+        if imp is not None and imp[0] == "module":
+            return modobj
+        t = ctx.index.resolve(fn.module, name)
+        if t is not None and not isinstance(t, (FuncInfo, ClassInfo, tuple)):
+            return modobj  # a module
+        if mod_attr(name) is not NotImplemented:
+            return modobj.m_getattr(name, mini, None)
+        return NotImplemented
+
+    def resolver(name):
+        t = ctx.index.resolve(fn.module, name)
+        return t if isinstance(t, FuncInfo) and t.cls is None else None
+
+    def on_follow(h, args, kwargs):
+        ctx.functions_analysed.add(h.key)
+        if memo_seen is not None and any("memoized" in d for d in h.decorators) and args:
+            memo_seen.append(h)
+
+    if selfobj is None:
+        stubs = {nm: (lambda *a, _nm=nm, **kw: _Delegated(_nm, a, kw)) for nm in _FAMILY}
+        stubs["process"] = _render_operand
+        stubs["render_literal_value"] = lambda v, *a, **kw: f"<lit:{v}>"
+        selfobj = ModelSelf(ctx.index, cls, attrs={"_like_percent_literal": _Term("P")}, methods=stubs,
+                            on_follow=on_follow)
+    neg, ci, stem = _parse_visit(fn.name)
+    own = f"{'not_' if neg else ''}{'i' if ci else ''}{stem}_op"
+    mini = Mini2(name_hook=name_hook, func_resolver=resolver, what=f"{cls.qualname}.{fn.name}")
+    operator = modobj.m_getattr(own if own_operator else "some_other_op", mini, None)
+    binary = _Binary(_Term("L"), _Term("R"), {} if escape is None else {"escape": escape})
+    val = mini.run_function(fn, [selfobj, binary, operator], {})
+    return val, binary, selfobj
+
+
+def _model_delegating(ctx, cls, fn, neg, ci, stem, val, binary):
+    """checks of a visitor whose model run ended in `self.visit_<family>(binary', operator, **kw)`."""
+    problems = []
+    dneg, dci, dstem = _parse_visit(val.name)
+    b2 = val.args[0] if val.args and isinstance(val.args[0], _Binary) else val.kwargs.get("binary")
+    if stem != "like":
+        if dstem != "like":
+            problems.append(f"delegates to {val.name} (not a LIKE visitor)")
+        if dneg != neg:
+            problems.append(f"delegates to {val.name}: NOT polarity differs from the method name")
+        if dci != ci:
+            problems.append(f"delegates to {val.name}: case-insensitivity differs from the method name")
+    else:
+        if dstem != "like" or dneg != neg:
+            problems.append(f"delegates to {val.name}: NOT polarity / family differs")
+        if dci and not ci:
+            problems.append(f"case-sensitive visitor delegates to {val.name}")
+    if not (isinstance(b2, _Binary) and b2.origin is binary.origin):
+        problems.append("does not pass the rewritten binary expression on")
+        return problems, None
+    left, right = b2.attrs["left"], b2.attrs["right"]
+    if not (isinstance(left, _Term) and isinstance(right, _Term)):
+        raise Unsupported("operands are not SQL operand terms in the model")
+    lshape, rshape = left.flat(), right.flat()
+    pretty = {"P": "'%'", "R": "right", "r": "lower(right)", "L": "left", "l": "lower(left)"}
+    if stem != "like":
+        want = [("r" if ci else "R") if t == "X" else t for t in EXPECTED_SHAPE[stem]]
+        if rshape != want:
+            problems.append("pattern is " + " || ".join(pretty[t] for t in rshape)
+                            + ", expected " + " || ".join(pretty[t] for t in want))
+        if ci and lshape != ["l"]:
+            problems.append("left operand is not wrapped in ilike_case_insensitive")
+        elif not ci and lshape != ["L"]:
+            problems.append("left operand is rewritten in a case-sensitive variant")
+    elif ci and not dci:
+        # plain ilike: both operands must be lower-cased when the operator is this method's own operator
+        low = sorted(n for n, sh, w in (("left", lshape, ["l"]), ("right", rshape, ["r"])) if sh == w)
+        if low != ["left", "right"]:
+            problems.append(f"delegates to the case-sensitive {val.name} but lower-cases only {low} "
+                            f"when the operator is {'not_' if neg else ''}ilike_op")
+    return problems, rshape
+
+
+def _model_terminal(ctx, cls, fn, neg, ci, text, selfobj, memo_seen):
+    """checks of a visitor that renders the string itself; `text` = model rendering with escape '^'."""
+    want = (["NOT"] if neg else []) + (["ILIKE"] if ci else ["LIKE"])
+    problems = []
+
+    def split(t):
+        if not isinstance(t, str):
+            raise Unsupported("visitor does not return a string in the model")
+        toks = t.split()
+        if toks.count("<L>") != 1 or toks.count("<R>") != 1 or toks[0] != "<L>":
+            raise Unsupported(f"rendering `{t}` is not `<left> KEYWORD <right> ...`")
+        i = toks.index("<R>")
+        return [w.upper() for w in toks[1:i]], toks[i + 1:]
+
+    words, tail = split(text)
+    if words != want:
+        problems.append(f"renders `{' '.join(words)}`, the method name requires `{' '.join(want)}`")
+    if not tail:
+        problems.append("renders no ESCAPE clause")
+    elif [tail[0].upper()] + tail[1:] != ["ESCAPE", "<lit:^>"]:
+        problems.append(f"ESCAPE clause is not rendered from the escape modifier via render_literal_value() "
+                        f"(model renders `{' '.join(tail)}` for escape '^')")
+    else:
+        # the same compiler object renders a second LIKE with another escape character, then one without
+        text2, _, _ = _run_visitor(ctx, cls, fn, "!", selfobj=selfobj, memo_seen=memo_seen)
+        _w2, tail2 = split(text2)
+        if tail2 != [tail[0], "<lit:!>"]:
+            memo = list(memo_seen or [])
+            why = (f": the clause comes from `{memo[0].name}`, which is decorated "
+                   f"`@{[d for d in memo[0].decorators if 'memoized' in d][0]}`: that memoiser ignores the "
+                   "arguments, so the first escape character rendered by this compiler is reused for every "
+                   "later LIKE of the statement") if memo else ""
+            problems.append(f"a second LIKE with escape '!' on the same compiler renders `{' '.join(tail2)}`" + why)
+        text3, _, _ = _run_visitor(ctx, cls, fn, None)
+        _w3, tail3 = split(text3)
+        if tail3:
+            problems.append(f"without an escape modifier the visitor still renders `{' '.join(tail3)}`")
+    return problems, want
+
+
 def _check_stem_visitor(ctx, cls: ClassInfo, fn: FuncInfo, neg, ci, stem):
     key = f"{cls.key}.{fn.name}"
+    try:
+        val, binary, _so = _run_visitor(ctx, cls, fn, "^")
+        if isinstance(val, _Delegated):
+            problems, shape = _model_delegating(ctx, cls, fn, neg, ci, stem, val, binary)
+            ctx.check(not problems, key, "; ".join(problems),
+                      f"{'NOT ' if neg else ''}{'I' if ci else ''}LIKE with pattern shape {shape}", fn.loc)
+            return
+        raise Unsupported("no delegation to a sibling visitor in the model")
+    except Unsupported as e:
+        ctx.note(f"{key}: model run not possible ({e}); structural matcher used")
     problems = []
     bnames = _binary_names(fn)
     pnames = set()
@@ -394,6 +699,18 @@ def _escape_helper(ctx, cls: ClassInfo, call: ast.Call, esc_vars):
 
 def _check_like_visitor(ctx, cls: ClassInfo, fn: FuncInfo, neg, ci):
     key = f"{cls.key}.{fn.name}"
+    try:
+        memo_seen = []
+        val, binary, selfobj = _run_visitor(ctx, cls, fn, "^", memo_seen=memo_seen)
+        if isinstance(val, _Delegated):
+            problems, _shape = _model_delegating(ctx, cls, fn, neg, ci, "like", val, binary)
+            ctx.check(not problems, key, "; ".join(problems), f"delegates to {val.name}", fn.loc)
+        else:
+            problems, want = _model_terminal(ctx, cls, fn, neg, ci, val, selfobj, memo_seen)
+            ctx.check(not problems, key, "; ".join(problems), f"`{' '.join(want)}` + ESCAPE from modifiers", fn.loc)
+        return
+    except Unsupported as e:
+        ctx.note(f"{key}: model run not possible ({e}); structural matcher used")
     problems = []
     dels = _delegation(fn)
     rets = returns_of(fn.node)
@@ -478,6 +795,33 @@ def _check_like_visitor(ctx, cls: ClassInfo, fn: FuncInfo, neg, ci):
     ctx.check(not problems, key, "; ".join(problems), f"`{' '.join(want)}` + ESCAPE from modifiers", fn.loc)
 
 
+def _operand_lowers(ctx, cls, fn: FuncInfo) -> bool:
+    """visit_ilike_case_insensitive_operand wraps the operand in lower(): model run, else string constants."""
+    try:
+        element = ModelObj("element", {"element": _Term("L")})
+        selfobj = ModelSelf(ctx.index, cls, methods={"process": _render_operand})
+        mini = Mini2(what=f"{cls.qualname}.{fn.name}")
+        val = mini.run_function(fn, [selfobj, element], {})
+        if isinstance(val, str) and "<L>" in val:
+            return "lower(" in val.lower()
+    except Unsupported:
+        pass
+    return any("lower(" in s.lower() for r in returns_of(fn.node) for s in str_constants(r.value))
+
+
+def _renders_ilike(ctx, cls, m: FuncInfo) -> bool:
+    try:
+        val, _b, _s = _run_visitor(ctx, cls, m, None)
+        if isinstance(val, _Delegated):
+            return False
+        if isinstance(val, str):
+            return "ILIKE" in val.upper().split()
+    except Unsupported:
+        pass
+    return not _delegation(m) and any(
+        "ILIKE" in s.upper() for r in returns_of(m.node) for s in str_constants(r.value))
+
+
 @R.rule("C08-R3", floor=21, template="T-SIBLING",
         desc="compiler visitors of the LIKE family (base SQLCompiler and every dialect override): percent "
              "placement by stem, lower() on exactly the i-variants, delegation to the LIKE visitor of the "
@@ -508,7 +852,8 @@ def r3(ctx):
     # the percent literal
     pl = base.methods.get("_like_percent_literal")
     ctx.require(pl is not None, "SQLCompiler._like_percent_literal vanished")
-    consts = [s for r in returns_of(pl.node) for s in str_constants(r.value)]
+    consts = [s for st in pl.node.body if not (isinstance(st, ast.Expr) and isinstance(st.value, ast.Constant))
+              for s in str_constants(st)]
     ctx.check("'%'" in consts, pl.key, f"_like_percent_literal renders {consts}, not the SQL literal '%'",
               "literal_column(\"'%'\")", pl.loc)
     # who does not lower() must render ILIKE
@@ -517,7 +862,7 @@ def r3(ctx):
         if fn is None:
             continue
         ctx.functions_analysed.add(fn.key)
-        lowers = any("lower(" in s.lower() for r in returns_of(fn.node) for s in str_constants(r.value))
+        lowers = _operand_lowers(ctx, cls, fn)
         key = f"{cls.key}.visit_ilike_case_insensitive_operand"
         if lowers:
             ctx.ok(key, "applies lower()")
@@ -525,8 +870,7 @@ def r3(ctx):
         missing = []
         for nm, want in (("visit_ilike_op_binary", "ILIKE"), ("visit_not_ilike_op_binary", "NOT ILIKE")):
             m = ctx.index.resolve_method(cls, nm)
-            terminal = m is not None and not _delegation(m) and any(
-                "ILIKE" in s.upper() for r in returns_of(m.node) for s in str_constants(r.value))
+            terminal = m is not None and _renders_ilike(ctx, cls, m)
             if not terminal:
                 missing.append(nm)
         ctx.check(not missing, key,
@@ -535,15 +879,24 @@ def r3(ctx):
 
 
 # ---------------------------------------------------------------------------------------- self test
+_CHAIN = ('        other = other.replace(escape, escape + escape)\n'
+          '        for wildcard in ("%", "_"):\n'
+          '            if wildcard != escape:\n'
+          '                other = other.replace(wildcard, escape + wildcard)\n')
 R.mutant("r1-swap-replace-steps", OPS,
-         sub('        if escape not in ("%", "_"):\n            other = other.replace(escape, escape + escape)\n\n'
-             '        other = other.replace("%", escape + "%").replace("_", escape + "_")\n',
-             '        other = other.replace("%", escape + "%").replace("_", escape + "_")\n\n'
-             '        if escape not in ("%", "_"):\n            other = other.replace(escape, escape + escape)\n'),
-         "C08-R1")
+         sub(_CHAIN,
+             '        for wildcard in ("%", "_"):\n'
+             '            if wildcard != escape:\n'
+             '                other = other.replace(wildcard, escape + wildcard)\n'
+             '        other = other.replace(escape, escape + escape)\n'), "C08-R1")
 R.mutant("r1-drop-underscore", OPS,
-         sub('other = other.replace("%", escape + "%").replace("_", escape + "_")',
-             'other = other.replace("%", escape + "%")'), "C08-R1")
+         sub('        for wildcard in ("%", "_"):\n            if wildcard != escape:\n',
+             '        for wildcard in ("%",):\n            if wildcard != escape:\n'), "C08-R1")
+R.mutant("r1-escape-char-not-doubled", OPS,
+         sub('        other = other.replace(escape, escape + escape)\n', ''), "C08-R1")
+R.mutant("r1-wildcard-equal-to-escape-doubled-twice", OPS,
+         sub('            if wildcard != escape:\n                other = other.replace(wildcard, escape + wildcard)\n',
+             '            other = other.replace(wildcard, escape + wildcard)\n'), "C08-R1")
 R.mutant("r1-escape-not-forwarded", OPS, sub("    return fn(other, escape=escape)\n", "    return fn(other)\n"), "C08-R1")
 R.mutant("r1-default-is-wildcard", OPS, sub('            escape = "/"\n', '            escape = "%"\n'), "C08-R1")
 R.mutant("r2-wrong-stem", OPS,
@@ -586,10 +939,29 @@ R.mutant("benign-rename-local-percent", COMP,
              "    def visit_endswith_op_binary(self, binary, operator, **kw):\n        binary = binary._clone()\n"
              "        pct = self._like_percent_literal\n        binary.right = pct.concat(binary.right)\n"), None)
 R.mutant("benign-split-chain-into-statements", OPS,
-         sub('        other = other.replace("%", escape + "%").replace("_", escape + "_")\n',
-             '        pct = escape + "%"\n        other = other.replace("%", pct)\n'
-             '        for _wc in ("_",):\n            other = other.replace(_wc, escape + _wc)\n'),
+         sub(_CHAIN,
+             '        doubled = escape + escape\n        other = other.replace(escape, doubled)\n'
+             '        if escape != "%":\n            other = other.replace("%", escape + "%")\n'
+             '        if "_" != escape:\n            other = other.replace("_", f"{escape}_")\n'),
          None)
+# rob-D1: the replace chain extracted into a module level helper + early return for the plain path (rfD_7 family)
+R.mutant("benign-chain-extracted-helper", OPS,
+         chain(sub('def _escaped_like_impl(\n    fn: Callable[..., Any], other: Any, escape: Optional[str], autoescape: bool\n) -> Any:\n    if autoescape:\n',
+             'def _like_literal(text, esc):\n    out = text.replace(esc, esc * 2)\n'
+             '    for wc in "%_":\n        if wc == esc:\n            continue\n        out = out.replace(wc, esc + wc)\n    return out\n\n\n'
+             'def _escaped_like_impl(\n    fn: Callable[..., Any], other: Any, escape: Optional[str], autoescape: bool\n) -> Any:\n'
+             '    if not autoescape:\n        return fn(other, escape=escape)\n    if autoescape:\n'),
+         sub(_CHAIN, '        other = _like_literal(other, escape)\n')), None)
+R.mutant("r1-extracted-helper-skips-escape-char", OPS,
+         chain(sub('def _escaped_like_impl(\n    fn: Callable[..., Any], other: Any, escape: Optional[str], autoescape: bool\n) -> Any:\n    if autoescape:\n',
+             'def _like_literal(text, esc):\n    out = text\n'
+             '    for wc in "%_":\n        if wc == esc:\n            continue\n        out = out.replace(wc, esc + wc)\n    return out\n\n\n'
+             'def _escaped_like_impl(\n    fn: Callable[..., Any], other: Any, escape: Optional[str], autoescape: bool\n) -> Any:\n'
+             '    if autoescape:\n'),
+         sub(_CHAIN, '        other = _like_literal(other, escape)\n')), "C08-R1")
+# result bound to a local, keyword dict
+R.mutant("benign-forward-through-local", OPS,
+         sub("    return fn(other, escape=escape)\n", "    opts = {\"escape\": escape}\n    result = fn(other, **opts)\n    return result\n"), None)
 R.mutant("benign-logging", OPS,
          sub('        if escape is None:\n            escape = "/"\n', '        if escape is None:\n            escape = "/"\n        _dbg = len(other) if isinstance(other, str) else 0\n'), None)
 _ESC_INLINE = ('        ) + (\n            " ESCAPE " + self.render_literal_value(escape, sqltypes.STRINGTYPE)\n'
@@ -601,3 +973,105 @@ _ESC_HELPER = ('        ) + (self._like_escape_clause(escape) if escape is not N
 R.mutant("benign-escape-clause-helper", COMP, sub(_ESC_INLINE, _ESC_HELPER % ""), None)
 R.mutant("r3-escape-clause-helper-memoized", COMP,
          sub(_ESC_INLINE, _ESC_HELPER % "@util.memoized_instancemethod\n    "), "C08-R3")
+# ---- rob-D1: benign families (helpers followed, locals resolved, if-shapes irrelevant) and their breaking twins
+R.mutant("benign-op-result-local-and-keywords", OPS,
+         sub("    return ~_escaped_like_impl(a.startswith, b, escape, autoescape)\n",
+             "    positive = _escaped_like_impl(\n        a.startswith, b, autoescape=autoescape, escape=escape\n    )\n"
+             "    negated = ~positive\n    return negated\n"), None)
+R.mutant("r2-op-result-local-swaps-escape-args", OPS,
+         sub("    return ~_escaped_like_impl(a.startswith, b, escape, autoescape)\n",
+             "    positive = _escaped_like_impl(\n        a.startswith, b, autoescape=escape, escape=autoescape\n    )\n"
+             "    negated = ~positive\n    return negated\n"), "C08-R2")
+R.mutant("benign-method-options-dict", OPS,
+         sub("        return self.operate(\n            startswith_op, other, escape=escape, autoescape=autoescape\n        )\n",
+             "        options = dict(autoescape=autoescape)\n        options[\"escape\"] = escape\n"
+             "        op = startswith_op\n        return self.operate(op, other, **options)\n"), None)
+R.mutant("r2-method-options-dict-wrong-op", OPS,
+         sub("        return self.operate(\n            startswith_op, other, escape=escape, autoescape=autoescape\n        )\n",
+             "        options = dict(autoescape=autoescape)\n        options[\"escape\"] = escape\n"
+             "        op = endswith_op\n        return self.operate(op, other, **options)\n"), "C08-R2")
+_CONTAINS = ("    def visit_contains_op_binary(self, binary, operator, **kw):\n        binary = binary._clone()\n"
+             "        percent = self._like_percent_literal\n"
+             "        binary.right = percent.concat(binary.right).concat(percent)\n"
+             "        return self.visit_like_op_binary(binary, operator, **kw)\n")
+_AROUND = ("    def _percent_around(self, operand, before, after):\n        percent = self._like_percent_literal\n"
+           "        if before:\n            operand = percent.concat(operand)\n"
+           "        if after:\n            operand = operand.concat(percent)\n        return operand\n\n")
+R.mutant("benign-stem-pattern-helper", COMP,
+         sub(_CONTAINS, _AROUND + "    def visit_contains_op_binary(self, binary, operator, **kw):\n"
+             "        rewritten = binary._clone()\n"
+             "        rewritten.right = self._percent_around(rewritten.right, True, True)\n"
+             "        return self.visit_like_op_binary(rewritten, operator, **kw)\n"), None)
+R.mutant("r3-stem-pattern-helper-one-sided", COMP,
+         sub(_CONTAINS, _AROUND + "    def visit_contains_op_binary(self, binary, operator, **kw):\n"
+             "        rewritten = binary._clone()\n"
+             "        rewritten.right = self._percent_around(rewritten.right, True, False)\n"
+             "        return self.visit_like_op_binary(rewritten, operator, **kw)\n"), "C08-R3")
+R.mutant("r3-stem-helper-passes-unrewritten-binary", COMP,
+         sub(_CONTAINS, _AROUND + "    def visit_contains_op_binary(self, binary, operator, **kw):\n"
+             "        rewritten = binary._clone()\n"
+             "        rewritten.right = self._percent_around(rewritten.right, True, True)\n"
+             "        return self.visit_like_op_binary(binary, operator, **kw)\n"), "C08-R3")
+R.mutant("benign-stem-temp-locals", COMP,
+         sub("        binary.left = ilike_case_insensitive(binary.left)\n"
+             "        binary.right = percent.concat(ilike_case_insensitive(binary.right))\n"
+             "        return self.visit_ilike_op_binary(binary, operator, **kw)\n",
+             "        lowered = ilike_case_insensitive(binary.right)\n        pattern = percent + lowered\n"
+             "        binary.right = pattern\n        binary.left = ilike_case_insensitive(binary.left)\n"
+             "        result = self.visit_ilike_op_binary(binary, operator, **kw)\n        return result\n"), None)
+_ILIKE = ("    def visit_ilike_op_binary(self, binary, operator, **kw):\n        if operator is operators.ilike_op:\n"
+          "            binary = binary._clone()\n            binary.left = ilike_case_insensitive(binary.left)\n"
+          "            binary.right = ilike_case_insensitive(binary.right)\n"
+          "        # else we assume ilower() has been applied\n\n"
+          "        return self.visit_like_op_binary(binary, operator, **kw)\n")
+R.mutant("benign-ilike-early-return", COMP,
+         sub(_ILIKE, "    def visit_ilike_op_binary(self, binary, operator, **kw):\n"
+             "        already_lowered = operator is not operators.ilike_op\n"
+             "        if already_lowered:\n            return self.visit_like_op_binary(binary, operator, **kw)\n"
+             "        clone = binary._clone()\n"
+             "        clone.left, clone.right = (\n            ilike_case_insensitive(clone.left),\n"
+             "            ilike_case_insensitive(clone.right),\n        )\n"
+             "        return self.visit_like_op_binary(clone, operator, **kw)\n"), None)
+R.mutant("r3-ilike-early-return-wrong-operator", COMP,
+         sub(_ILIKE, "    def visit_ilike_op_binary(self, binary, operator, **kw):\n"
+             "        already_lowered = operator is not operators.not_ilike_op\n"
+             "        if already_lowered:\n            return self.visit_like_op_binary(binary, operator, **kw)\n"
+             "        clone = binary._clone()\n"
+             "        clone.left, clone.right = (\n            ilike_case_insensitive(clone.left),\n"
+             "            ilike_case_insensitive(clone.right),\n        )\n"
+             "        return self.visit_like_op_binary(clone, operator, **kw)\n"), "C08-R3")
+_LIKE_T = ('        return "%s LIKE %s" % (\n            binary.left._compiler_dispatch(self, **kw),\n'
+           '            binary.right._compiler_dispatch(self, **kw),\n        ) + (\n'
+           '            " ESCAPE " + self.render_literal_value(escape, sqltypes.STRINGTYPE)\n'
+           '            if escape is not None\n            else ""\n        )\n')
+R.mutant("benign-terminal-statement-form", COMP,
+         sub(_LIKE_T, '        lhs = binary.left._compiler_dispatch(self, **kw)\n'
+             '        rhs = binary.right._compiler_dispatch(self, **kw)\n'
+             '        parts = [lhs, "LIKE", rhs]\n'
+             '        if escape is None:\n            return " ".join(parts)\n'
+             '        parts.append("ESCAPE")\n'
+             '        parts.append(self.render_literal_value(escape, sqltypes.STRINGTYPE))\n'
+             '        return " ".join(parts)\n'), None)
+R.mutant("r3-terminal-statement-form-escape-unconditional-default", COMP,
+         sub(_LIKE_T, '        lhs = binary.left._compiler_dispatch(self, **kw)\n'
+             '        rhs = binary.right._compiler_dispatch(self, **kw)\n'
+             '        parts = [lhs, "LIKE", rhs]\n'
+             '        if escape is None:\n            return " ".join(parts)\n'
+             '        parts.append("ESCAPE")\n'
+             '        parts.append(self.render_literal_value("/", sqltypes.STRINGTYPE))\n'
+             '        return " ".join(parts)\n'), "C08-R3")
+# rfD_9 family on the dialect: statement form + f-string, and its twin with the wrong keyword
+_PG_ILIKE = ('        return "%s ILIKE %s" % (\n            self.process(binary.left, **kw),\n'
+             '            self.process(binary.right, **kw),\n        ) + (\n'
+             '            " ESCAPE " + self.render_literal_value(escape, sqltypes.STRINGTYPE)\n'
+             '            if escape is not None\n            else ""\n        )\n')
+R.mutant("benign-pg-ilike-fstring-statements", "dialects/postgresql/base.py",
+         sub(_PG_ILIKE, '        left_sql = self.process(binary.left, **kw)\n        right_sql = self.process(binary.right, **kw)\n'
+             '        text = f"{left_sql} ILIKE {right_sql}"\n        if escape is not None:\n'
+             '            text += " ESCAPE " + self.render_literal_value(\n                escape, sqltypes.STRINGTYPE\n            )\n'
+             '        return text\n'), None)
+R.mutant("r3-pg-ilike-fstring-renders-like", "dialects/postgresql/base.py",
+         sub(_PG_ILIKE, '        left_sql = self.process(binary.left, **kw)\n        right_sql = self.process(binary.right, **kw)\n'
+             '        text = f"{left_sql} LIKE {right_sql}"\n        if escape is not None:\n'
+             '            text += " ESCAPE " + self.render_literal_value(\n                escape, sqltypes.STRINGTYPE\n            )\n'
+             '        return text\n'), "C08-R3")
